@@ -15,6 +15,7 @@ from .lin import INF, Lin, lp_max
 
 ISIZE_MAX = 2 ** 63 - 1
 MAX_PART = 12
+MAX_UNROLL = 24
 MAX_INLINE_DEPTH = 4
 MAX_INLINE_BLOCKS = 45
 
@@ -1468,6 +1469,7 @@ class Interp:
         work = {entry}
         self.cut_states = []
         steps = 0
+        unrolled_for, no_unroll = {}, set()
         while work:
             b = min(work, key=lambda x: pos.get(x, 10 ** 9))
             work.discard(b)
@@ -1496,6 +1498,41 @@ class Interp:
                 for p in preds[s]:
                     allst += edge_out.get((p, s), [])
                 jid = (fr.id, body.path, s) if region is None else (fr.id, body.path, s, "region", entry)
+                if s in heads and region is None and fr.depth == 0 and s in self.unrollable(body) and s not in no_unroll:
+                    # a value-consuming loop with a capacity exit (gsa/loops.py) is run iteration by iteration instead of
+                    # being joined and widened at its head; its exit edges and block-entry states are then used as if the
+                    # worklist had produced them
+                    blocks_ = self.unrollable(body)[s]
+                    ent = self.normalize_w([x for p_ in preds[s] if p_ not in blocks_ for x in edge_out.get((p_, s), [])], jid, widen=False)
+                    if not states_changed(unrolled_for.get(s), ent):
+                        continue
+                    unrolled_for[s] = ent
+                    res = self.unroll_loop(fr, s, blocks_, ent)
+                    if res is None:
+                        no_unroll.add(s)
+                    else:
+                        ex_edges, inner_inst, inner_exits = res
+                        for b_ in blocks_:
+                            inst[b_] = inner_inst.get(b_, [])
+                            if b_ in inner_exits:
+                                exits[b_] = inner_exits[b_]
+                            else:
+                                exits.pop(b_, None)
+                        touched = set()
+                        for (u_, v_), sts in ex_edges.items():
+                            edge_out[(u_, v_)] = sts
+                            touched.add(v_)
+                        for v_ in touched:
+                            if body.blocks[v_].cleanup or v_ not in pos:
+                                continue
+                            all2 = []
+                            for p_ in preds[v_]:
+                                all2 += edge_out.get((p_, v_), [])
+                            new2 = self.normalize_w(all2, (fr.id, body.path, v_), widen=False)
+                            if states_changed(inst.get(v_), new2):
+                                inst[v_] = new2
+                                work.add(v_)
+                        continue
                 if s in heads:
                     visits[s] = visits.get(s, 0) + 1
                     new = self.normalize_w(allst, jid, widen=visits[s] > 2)
@@ -1514,7 +1551,87 @@ class Interp:
         for b in sorted(exits):
             out += exits[b]
         fr_inst = inst
+        self.last_edge_out, self.last_exits, self.last_inst = edge_out, exits, inst
         return out, fr_inst
+
+    def unrollable(self, body):
+        """{head: blocks} of the loops that are run iteration by iteration: value-consuming loops of the codec with an exit
+        decided by a counter or by an iterator running out (gsa/loops.py)."""
+        c = self._unrollable.get(body.path)
+        if c is None:
+            c = {}
+            if body.path.startswith("ber::") or body.path.startswith("<ber::"):
+                li = self._loop_info.get(body.path)
+                if li is None:
+                    from . import loops as loopsm
+                    li = self._loop_info[body.path] = loopsm.analyse(body)
+                for h_, info in li.items():
+                    if info["consumed"] and info["capacity_exits"]:
+                        c[h_] = set(info["blocks"])
+            self._unrollable[body.path] = c
+        return c
+
+    def unroll_loop(self, fr, head, blocks, entry_states):
+        """Run the loop at `head` one iteration at a time (at most MAX_UNROLL): returns (states on the edges leaving the
+        loop, block-entry states of all iterations, function exits inside the loop), or None when the loop did not
+        finish within the bound."""
+        body = fr.body
+        cur = [s for s in entry_states if not s.dead]
+        ex_edges, inner, inner_exits = {}, {}, {}
+        saved = (self.cut_states, getattr(self, "last_edge_out", None), getattr(self, "last_exits", None), self.exact_ranges)
+        self.exact_ranges = True
+        try:
+            for k in range(MAX_UNROLL + 1):
+                if not cur:
+                    break
+                if k == MAX_UNROLL:
+                    return None
+                self.run_body(fr, [s.copy() for s in cur], entry=head, region=blocks, cut=head)
+                eo, exs, back = self.last_edge_out, self.last_exits, self.cut_states
+                for (u, v), sts in eo.items():
+                    if u in blocks and v not in blocks and not body.blocks[v].cleanup:
+                        ex_edges.setdefault((u, v), [])
+                        ex_edges[(u, v)] += [x for x in sts if not x.dead]
+                for b_, sts in self.last_inst.items():
+                    inner.setdefault(b_, [])
+                    inner[b_] += [x for x in sts if not x.dead]
+                for b_, sts in exs.items():
+                    inner_exits.setdefault(b_, [])
+                    inner_exits[b_] += sts
+                cur = [x for x in back if not x.dead]
+        finally:
+            self.cut_states, self.last_edge_out, self.last_exits, self.exact_ranges = saved
+        return ex_edges, inner, inner_exits
+
+    def capacity_check(self, fr, b, succ):
+        """Obligation at the capacity exits of a value-consuming loop of a codec function (gsa/loops.py): when the loop is
+        left because a counter or an iterator ran out, the value it was emitting digit by digit / octet by octet is used up
+        (0; within -1..=0 for an arithmetic shift of a signed value).  Otherwise the remaining digits are dropped silently."""
+        body = fr.body
+        if not succ or fr.depth != 0 or b not in {x for bl in self.unrollable(body).values() for x in bl}:
+            return
+        info = self._loop_info.get(body.path) or {}
+        for head, li in info.items():
+            if head not in self.unrollable(body) or b not in li["blocks"]:
+                continue
+            for (src, dst) in li["capacity_exits"]:
+                if src != b:
+                    continue
+                for st in succ.get(dst, []):
+                    if st.dead:
+                        continue
+                    for v, (kind, signed) in sorted(li["consumed"].items()):
+                        val = st.env.get((("L", fr.id, v),))
+                        if val is None or val[0] != "int":
+                            cond = ("const", False)
+                        elif kind == "shr" and signed:
+                            cond = ("and", [("le", val[1]), ("le", -val[1] - 1)])   # -1 <= v <= 0: only the sign extension is left
+                        else:
+                            cond = ("eq", val[1])
+                        line = body.blocks[src].term.get("line") if body.blocks[src].term else body.line
+                        self.oblige(st, fr, "capacity-exit|%s|loop@%d" % (body.local_name(v), head), "capacity-exit", line, cond, "always",
+                                    "the loop can be left because its counter / iterator ran out while `%s` is not used up: the remaining "
+                                    "digits or octets of the value are dropped" % body.local_name(v))
 
     def trip_bounds(self, fr, head, preds, edge_out):
         """Upper bounds of the step counters of a `while v != 0 { ..; v >>= c }` loop (gsa/loops.py): an unsigned value
@@ -2072,6 +2189,9 @@ class NumEngine(Interp, Engine):
         Engine.__init__(self, facts, contracts, invariants, verbose)
         self.tmpl_store = {}
         self._loop_info = {}
+        self._unrollable = {}
+        self.exact_ranges = False
+        self.last_inst = {}
         self.cast_facts = {}
         self.cur_block = None
         self.cur_stmt = None
@@ -2131,7 +2251,8 @@ class NumEngine(Interp, Engine):
         try:
             for b, states in sorted(inst.items()):
                 if states:
-                    self.transfer(fr, b, [s.copy() for s in states])
+                    out_ = self.transfer(fr, b, [s.copy() for s in states])
+                    self.capacity_check(fr, b, out_[0] if isinstance(out_, tuple) else None)
             if con is not None:
                 con.check_ensures_in_callee(self, fr, exits)
             self.check_invariants_at_exit(fr, exits)
